@@ -30,7 +30,7 @@ var t24501MT = map[string]int64{
 }
 
 func c09(c *core.Ctx) map[string]interface{} {
-	c.Explanation = "Static table comparison of the NAS wire layout with TS 24.501 (C09). Decided: (R9.mt) the 44 message-type constants, the two EPD values and the five security header types equal tables 9.7.1/9.7.2, 9.2, 9.3; (R9.tab) for all 45 messages the code-side table extracted from Encode<X>/the IE types - order and width of the mandatory fields, and IEI, format (half-octet TV, TV, TLV, TLV-E) and length-field width / fixed size of every optional IE - equals the table of clauses 8.2/8.3 compiled into the checker (T-24501-MSG, 204 mandatory + 159 optional rows); an IE of the standard's table that the code no longer handles is a violation; (R9.ctor) in the emulator's message constructors (nasTestpacket) the message type put in the header and in the body is the constant of the struct being filled, the EPD matches the family, the struct is stored in the field of its own name, every IEI given to New<IE>/SetIei is the constant <ThisMessage><ThisIE>Type, and a length set from len(x) is followed by storing the same x. (R9.acc.pair/.layout/.keep) for the 735 Get/Set accessor pairs of the 151 IE value types, summarised from their SSA form in a bit-provenance domain: getter and setter address the same octets and bits, these equal the frozen TS 24.501 9.11 layout table (T-24501-IELAYOUT), and bit-field setters the emulator's constructors call keep all other bits of the octet. (R8.dispatch/R8.mand/R8.opt/R8.loop, R17.snssai-ctor) the codec pairing rules of C08 and the S-NSSAI constructor rule of C17 are run here too: a message an independent TS 24.501 encoder built is decoded to the intended values only if the decode loops and cases are intact. Two known findings of the pinned library are listed (F13, F14). NOT decided: the meaning of IE values (code points); IEs the library does not model at all."
+	c.Explanation = "Static table comparison of the NAS wire layout with TS 24.501 (C09). Decided: (R9.mt) the 44 message-type constants, the two EPD values and the five security header types equal tables 9.7.1/9.7.2, 9.2, 9.3; (R9.tab) for all 45 messages the code-side table extracted from Encode<X>/the IE types - order and width of the mandatory fields, and IEI, format (half-octet TV, TV, TLV, TLV-E) and length-field width / fixed size of every optional IE - equals the table of clauses 8.2/8.3 compiled into the checker (T-24501-MSG, 204 mandatory + 159 optional rows); an IE of the standard's table that the code no longer handles is a violation; (R9.ctor) in the emulator's message constructors (nasTestpacket) the message type put in the header and in the body is the constant of the struct being filled, the EPD matches the family, the struct is stored in the field of its own name, every IEI given to New<IE>/SetIei is the constant <ThisMessage><ThisIE>Type, and a length set from len(x) is followed by storing the same x. (R9.ctor.len) an IE handed a caller's octet string carries all of it with Len = its length when the message is encoded (the DNN, which nasType.DNN.SetDNN label-codes, is not an instance); a constructor that writes a message by hand instead of through the message encoder returns at least the header and the fixed-length mandatory IEs of the message its type octet names (no such constructor in the tree today). (R9.acc.pair/.layout/.keep) for the 735 Get/Set accessor pairs of the 151 IE value types, summarised from their SSA form in a bit-provenance domain: getter and setter address the same octets and bits, these equal the frozen TS 24.501 9.11 layout table (T-24501-IELAYOUT), and bit-field setters the emulator's constructors call keep all other bits of the octet. (R8.dispatch/R8.mand/R8.opt/R8.loop, R17.snssai-ctor) the codec pairing rules of C08 and the S-NSSAI constructor rule of C17 are run here too: a message an independent TS 24.501 encoder built is decoded to the intended values only if the decode loops and cases are intact. Two known findings of the pinned library are listed (F13, F14). NOT decided: the meaning of IE values (code points); IEs the library does not model at all."
 	c.Assumptions = []string{"T-24501-MSG was transcribed from TS 24.501 (Rel-15) and vetted against the library row by row; MappedEPSBearerContexts in the modification messages follows the library's release of the specification (IEI 0x7F)"}
 	m := buildNasModel(c)
 	if len(m.Msgs) < 40 {
